@@ -603,6 +603,7 @@ func c14Prefix(w *World, r *Result, tainted map[ssa.Value]bool) {
 // PrefixDigestRule: the namespace prefix of a file is a formatted digest of exactly the bytes read from it.
 func PrefixDigestRule(w *World, r *Result, rule string, tainted map[ssa.Value]bool) {
 	found := false
+	prefixField := parserPrefixField(w)
 	for _, fn := range w.Funcs("parser") {
 		for _, b := range fn.Blocks {
 			for _, ins := range b.Instrs {
@@ -611,7 +612,7 @@ func PrefixDigestRule(w *World, r *Result, rule string, tainted map[ssa.Value]bo
 					continue
 				}
 				fa, ok := st.Addr.(*ssa.FieldAddr)
-				if !ok || structFieldName(fa.X.Type(), fa.Field) != "prefix" {
+				if !ok || prefixField == "" || structFieldName(fa.X.Type(), fa.Field) != prefixField {
 					continue
 				}
 				if c, ok := st.Val.(*ssa.Const); ok && c.Value != nil {
